@@ -173,6 +173,15 @@ Fixpoint run_ops (base : Divider) (fuel : nat) (sm : psim) (ops : list (Z * Z * 
       let '(rest, smf) := run_ops base fuel sm1 r in
       ([Z.of_N tp; Z.of_N tx; Z.of_nat (length (outq (ps_st sm1))); Z.of_nat (length seg)] ++ flat_map enc_call seg ++ rest, smf)
   end.
+Fixpoint prefill (s : st) (nxt : N) (ops : list (Z * Z * Z)) : st * N * list (Z * Z * Z) :=
+  match ops with
+  | (6, p, _) :: r =>
+      match env_step s (Put (Z.to_N p) nxt) with
+      | Some s' => prefill s' (nxt + 1)%N r
+      | None => prefill s nxt r
+      end
+  | _ => (s, nxt, ops)
+  end.
 Definition run_prio2 (args : list Z) : list Z :=
   match args with
   | kind :: h :: fuel :: r =>
@@ -184,9 +193,11 @@ Definition run_prio2 (args : list Z) : list Z :=
       let base := divider_of kind in
       match new_v2 (fun _ => base) ps (Z.to_N h) isbuf with
       | inr e => map Z.opp (run_new_code base ps (Z.to_N h))
-      | inl s0 =>
+      | inl s00 =>
+          (* leading operations with code 6 are puts made before New(): the inputs are pre-filled *)
+          let '(s0, nxt, rest_ops) := prefill s00 1 (triples ops) in
           let s1 := sched_run (fun _ => base) (Z.to_nat fuel) false None s0 in
-          let '(out, smf) := run_ops base (Z.to_nat fuel) (mkPsim s1 [] 1 None) (triples ops) in
+          let '(out, smf) := run_ops base (Z.to_nat fuel) (mkPsim s1 [] nxt None) rest_ops in
           let fin := match pcs (ps_st smf) with
                      | Done None => [1; 0]
                      | Done (Some DividerBad) => [1; 1]
